@@ -13,6 +13,17 @@ Proof.
   - exact E.
 Qed.
 
+(* go-swagger's table covers everything the go tool gives a meaning to *)
+Lemma build_suffixes_cover : forallb (fun w => mem w build_suffixes) go_build_words = true.
+Proof. vm_compute. reflexivity. Qed.
+
+Lemma mangle_file_built u name : mem (last (mangle_file_parts u name) []) go_build_words = false.
+Proof.
+  destruct (mem (last (mangle_file_parts u name) []) go_build_words) eqn:E; [|reflexivity].
+  apply mem_In in E. pose proof build_suffixes_cover as C. rewrite forallb_forall in C. specialize (C _ E).
+  rewrite mangle_file_safe in C. discriminate.
+Qed.
+
 (* ---------- variable names are never reserved words ---------- *)
 Lemma reserved_all_lower : forallb (forallb a_lower) reserved_words = true.
 Proof. vm_compute. reflexivity. Qed.
